@@ -25,6 +25,7 @@ type c09Case struct {
 	Hook      string `json:"hook"`  // absent | nothing | status | status-body | body
 	PanicsMW  bool   `json:"panics_handler_middleware"`
 	Committed bool   `json:"committed_before_panic"`
+	PreStatus int    `json:"status_selected_before_panic,omitempty"` // e.g. 204 via NoContent(): selected, not committed
 	Twice     bool   `json:"panic_request_twice"`
 }
 
@@ -80,6 +81,11 @@ func newC09Router(c c09Case) *c09Router {
 	mk := func(i int) rux.HandlerFunc {
 		return func(ctx *rux.Context) {
 			cr.log = append(cr.log, fmt.Sprintf("enter%d", i))
+			if i == c.Pos && c.PreStatus == 204 {
+				ctx.NoContent()
+			} else if i == c.Pos && c.PreStatus > 0 {
+				ctx.SetStatus(c.PreStatus)
+			}
 			if i == c.Pos && c.When == "before-next" {
 				if c.Committed {
 					ctx.WriteString("x")
@@ -289,6 +295,12 @@ func c09Gen(tier string, emit func(c09Case)) {
 									continue
 								}
 								emit(c09Case{Where: "chain", N: n, Split: sp, Pos: pos, When: when, Value: v, Hook: hk, PanicsMW: f&1 != 0, Committed: f&2 != 0, Twice: (n+pos)%2 == 0})
+								if f == 0 && vi == 0 {
+									// a status was selected (204 / 304 / 201) but nothing committed when the panic strikes
+									for _, ps := range []int{204, 304, 201} {
+										emit(c09Case{Where: "chain", N: n, Split: sp, Pos: pos, When: when, Value: v, Hook: hk, PreStatus: ps})
+									}
+								}
 							}
 						}
 					}
